@@ -24,6 +24,10 @@
             vec![([2.0, 1.0], le, 10.0, "p"), ([1.0, 3.0], le, 15.0, "q"), ([1.0, -1.0], ge, -20.0, "r")],
             vec![([2.0, 1.0], ge, 4.0, "p"), ([1.0, 3.0], ge, 6.0, "q"), ([1.0, 1.0], eq, 3.5, "s")],
             vec![([1.0, 1.0], le, 8.0, "cap"), ([1.0, -1.0], le, 2.0, "gap"), ([0.0, 1.0], le, 30.0, "wide")],
+            // unnamed rows before and between named ones (the prices must stay paired with their own rows)
+            vec![([1.0, 1.0], ge, 4.0, ""), ([1.0, 0.0], le, 3.0, "capx"), ([0.0, 1.0], le, 10.0, "lim")],
+            vec![([1.0, 2.0], le, 14.0, "a"), ([0.0, 1.0], ge, -40.0, ""), ([3.0, 1.0], le, 18.0, "b")],
+            vec![([0.0, 1.0], le, 45.0, ""), ([1.0, 1.0], ge, 3.0, ""), ([2.0, 1.0], ge, 4.0, "p"), ([1.0, 3.0], ge, 6.0, "q")],
         ];
         let objs = [[2.0, 3.0], [1.0, 1.5], [3.0, 0.5], [-1.0, 2.0], [1.0, -0.25]];
         let (mut cases, mut fails, mut compared) = (0u64, 0u32, 0u64);
